@@ -26,14 +26,190 @@ NSHARDS = 16
 
 def shards(tier, seed):
     n = 800 if tier == "quick" else 9600
-    return [{"seed": seed, "shard": i, "programs": n // NSHARDS, "nest": 3 if tier == "quick" else 4,
-             "stmts": 10 if tier == "quick" else 20, "steps": 24 if tier == "quick" else 40} for i in range(NSHARDS)]
+    specs = [{"seed": seed, "shard": i, "programs": n // NSHARDS, "nest": 3 if tier == "quick" else 4,
+              "stmts": 10 if tier == "quick" else 20, "steps": 24 if tier == "quick" else 40} for i in range(NSHARDS)]
+    for i in range(NSHARDS):
+        specs.append({"kind": "enum_targets", "part": i, "parts": NSHARDS, "stride": 10 if tier == "quick" else 1})
+    return specs
+
+
+def run_target_group(env, targets, cases, out):
+    """Enumerated assignment targets (the C05 target grammar): one sync statement `target.eq(vin)` per
+    target, enabled one at a time; simulator and evaluated RTLIL must leave every signal equal."""
+    from amaranth.hdl import Signal, Module, Shape, Cat, ClockDomain, signed
+    from amaranth.hdl._ir import PortDirection as PD
+    from amaranth.sim import Simulator
+    from amaranth.back import rtlil
+    from .. import target as T
+    from ..common import exc_origin, mask
+    from ..rtlil import parse as P, eval as E
+    nbits = sum(w for w, s in env)
+
+    def make():
+        sigs = [Signal(Shape(w, s), name=f"s{k}") for k, (w, s) in enumerate(env)]
+        m = Module()
+        cd = ClockDomain("sync", reset_less=True)
+        m.domains.sync = cd
+        vin = Signal(signed(24), name="vin")
+        en = Signal(max(len(targets), 1), name="en")
+        load = Signal(name="load")
+        loadval = Signal(max(nbits, 1), name="loadval")
+        with m.If(load):
+            m.d.sync += Cat(*sigs).eq(loadval)
+        with m.Else():
+            for k, t in enumerate(targets):
+                with m.If(en[k]):
+                    m.d.sync += T.build(t, sigs).eq(vin)
+        outs = []
+        for k, sg in enumerate(sigs):
+            o = Signal(len(sg), name=f"o{k}")
+            m.d.comb += o.eq(sg)
+            outs.append(o)
+        ports = {"vin": (vin, PD.Input), "en": (en, PD.Input), "load": (load, PD.Input), "loadval": (loadval, PD.Input),
+                 "clk": (cd.clk, PD.Input)}
+        for k, o in enumerate(outs):
+            ports[f"o{k}"] = (o, PD.Output)
+        return m, cd, sigs, vin, en, load, loadval, outs, ports
+    try:
+        m, cd, sigs, vin, en, load, loadval, outs, ports = make()
+        sim = Simulator(m)
+        m2 = make()
+        ev = E.Evaluator(P.parse(rtlil.convert(m2[0], ports=m2[8], emit_src=False)))
+    except (P.ParseError, E.EvalError) as ex:
+        out["violations"].append({"mechanism": "enum-target-rtlil-unreadable", "detail": {"env": env, "targets": targets[:3], "error": str(ex)[:200]}})
+        return
+    except Exception as ex:
+        if exc_origin(ex) != "repo":
+            raise
+        if len(targets) > 1:
+            for t in targets:
+                run_target_group(env, [t], cases, out)
+            return
+        out["violations"].append({"mechanism": f"enum-target-build-exception:{type(ex).__name__}",
+                                  "detail": {"env": env, "target": targets[0], "exception": repr(ex)[:200]}})
+        return
+    for n in ("vin", "en", "load", "loadval", "clk"):
+        ev.set(n, 0)
+    ev.step()
+    bad = []
+
+    def pulse_ev():
+        ev.set("clk", 1)
+        ev.step()
+        ev.set("clk", 0)
+        ev.step()
+
+    async def tb(ctx):
+        for k, t in enumerate(targets):
+            for (sigma, v) in cases:
+                packed = 0
+                pos = 0
+                for (w, s), val in zip(env, sigma):
+                    packed |= (val & mask(w)) << pos
+                    pos += w
+                ctx.set(load, 1)
+                ctx.set(loadval, packed)
+                ctx.set(cd.clk, 1)
+                ctx.set(cd.clk, 0)
+                ctx.set(load, 0)
+                ctx.set(en, 1 << k)
+                ctx.set(vin, v)
+                ctx.set(cd.clk, 1)
+                ctx.set(cd.clk, 0)
+                ev.set("load", 1)
+                ev.set("loadval", packed)
+                pulse_ev()
+                ev.set("load", 0)
+                ev.set("en", 1 << k)
+                ev.set("vin", v & mask(24))
+                pulse_ev()
+                out["evaluations"] += 1
+                for j, sg in enumerate(sigs):
+                    sv = ctx.get(sg) & mask(len(sg))
+                    rv, rx = ev.get(f"o{j}")
+                    if rx:
+                        out["extra"]["skipped_undef_bits"] += bin(rx).count("1")
+                    if (sv & ~rx) != (rv & ~rx):
+                        # third opinion: the documented semantics (vf/target.py apply_write)
+                        try:
+                            doc = T.apply_write(t, env, list(sigma), v)[j] & mask(len(sg))
+                        except Exception:
+                            doc = None
+                        who = "circuit" if doc is not None and (rv & ~rx) == (doc & ~rx) else "rtlil" if doc == sv else "unknown"
+                        bad.append({"env": env, "target": t, "state": list(sigma), "value": v, "signal": j, "simulator": sv,
+                                    "rtlil": rv, "rtlil_undef": rx, "documented": doc, "deviates": who})
+                        break
+                if bad and bad[-1]["target"] is t:
+                    break
+    sim.add_testbench(tb)
+    sim.run()
+    seen = set()
+    for b in bad:
+        kinds = "+".join(sorted(set(T.forms(b["target"])))) if hasattr(T, "forms") else b["target"][0]
+        if kinds in seen:
+            continue
+        seen.add(kinds)
+        out["violations"].append({"mechanism": "enum-target-simulator-vs-rtlil:" + kinds, "detail": b})
+
+
+def run_enum_targets(spec, out):
+    from . import c05
+    from .. import target as T_
+    from ..common import corner_values
+    env, targets = c05.enum_write_targets()
+    mine = targets[spec["part"]::spec["parts"]]
+    if spec.get("stride", 1) > 1:
+        mine = mine[::spec["stride"]]
+    # windows over array proxies whose elements are narrower than the proxy (nesting 3): bits beyond
+    # the selected element must be dropped at the element, whatever the element is
+    S0, S1, OFF, B1 = ["sig", 0], ["sig", 1], ["sig", 2], ["sig", 4]
+    narrow = [["part", S0, OFF, 1, 1, "bit"], ["part", S0, OFF, 2, 1, "bit"], ["part", S0, OFF, 2, 2, "word"],
+              ["part", S0, ["const", 1], 2, 1, "bit"], ["slice", S0, 1, 3], ["as_signed", ["slice", S0, 0, 2]],
+              ["cat", [["slice", S0, 0, 1], ["slice", S0, 2, 3]]], ["part", ["slice", S0, 0, 3], OFF, 2, 1, "bit"]]
+    extra = []
+    for e in narrow:
+        for arr in (["array", [e, S1], B1], ["array", [S1, e], B1], ["array", [e, ["slice", S0, 0, 4]], B1]):
+            for a in range(0, 6):
+                for b in (a + 1, a + 2, 6):
+                    if a < b <= 6:
+                        extra.append(["slice", arr, a, b])
+            for pw in (1, 2, 3):
+                extra.append(["part", arr, OFF, pw, 1, "bit"])
+                extra.append(["part", arr, OFF, pw, pw, "word"])
+    ok = []
+    for t in extra:
+        try:
+            T_.t_shape(t, env)
+            ok.append(t)
+        except Exception:
+            pass
+    mine = mine + ok[spec["part"]::spec["parts"]]
+    rng = derive_rng("c04t", spec["part"])
+    per = [corner_values(w, s) for (w, s) in env]
+    cases = []
+    for _ in range(6):
+        sigma = tuple(rng.choice(p) for p in per)
+        cases.append((sigma, rng.choice([0, -1, 1, 5, -6, 0x155, rng.randrange(-4096, 4096)])))
+    for i in range(0, len(mine), 12):
+        run_target_group(env, mine[i:i + 12], cases, out)
+    out["extra"]["enumerated_targets"] = out["extra"].get("enumerated_targets", 0) + len(mine)
+    for t in mine[:400]:
+        out["fps"].add(fp(["target", t]))
+    if spec.get("stride", 1) == 1:
+        out["exhaustive"].append("every assignment-target form of nesting <= 2 (C05 target grammar, 9.6 k targets) as a sync statement: simulator vs evaluated RTLIL")
 
 
 def run_shard(spec):
     instrument.install_slot_invariant()
     out = {"evaluations": 0, "fps": set(), "hist": {}, "violations": [], "samples": [], "exhaustive": [],
            "extra": {"skipped_undef_bits": 0, "designs": 0, "documents": 0}}
+    if spec.get("kind") == "enum_targets":
+        run_enum_targets(spec, out)
+        out["violations"].extend(instrument.VIOLATIONS)
+        instrument.VIOLATIONS.clear()
+        out["monitors"] = dict(instrument.COUNTERS)
+        out["fps"] = sorted(out["fps"])
+        return out
     rng = derive_rng("c04", spec["seed"], spec["shard"])
     try:
         from . import c07
